@@ -234,3 +234,65 @@ func HC13NdStream() {
 	vAssert(NdJSON(buf, 0), "stream-whole")
 	vReach("end")
 }
+
+// HC13Ragged: a table in which one complete line has a different number of fields is not CSV/TSV,
+// wherever the damaged line sits and wherever the read limit falls at or after its end (including
+// exactly on its line feed, and the file ending exactly there).
+func HC13Ragged() {
+	isTab := vChoice("delim", 2) == 1
+	delim := byte(',')
+	if isTab {
+		delim = '\t'
+	}
+	cols := 2 + vChoice("cols", 2)
+	rows := 3 + vChoice("rows", 2)
+	bad := vChoice("badRow", rows)
+	delta := vChoice("delta", 2) // 0: one field fewer, 1: one field more
+	crlf := vChoice("crlf", 2) == 1
+	var buf []byte
+	endBad := 0
+	for r := 0; r < rows; r++ {
+		n := cols
+		if r == bad {
+			if delta == 0 {
+				n = cols - 1
+			} else {
+				n = cols + 1
+			}
+		}
+		for c := 0; c < n; c++ {
+			if c > 0 {
+				buf = append(buf, delim)
+			}
+			cell := vBytes("cell", 1, 1)
+			vAssume(cell[0] != '"' && cell[0] != '\n' && cell[0] != '\r' && cell[0] != delim && cell[0] != '#')
+			buf = append(buf, cell...)
+		}
+		if crlf {
+			buf = append(buf, '\r')
+		}
+		buf = append(buf, '\n')
+		if r == bad {
+			endBad = len(buf)
+		}
+	}
+	check := func(raw []byte, limit uint32, label string) {
+		var got bool
+		if isTab {
+			got = Tsv(raw, limit)
+		} else {
+			got = Csv(raw, limit)
+		}
+		vAssert(!got, label)
+	}
+	check(buf, 0, "ragged-table-rejected-whole")
+	// the file ends exactly with the damaged line and is exactly as long as the limit
+	check(buf[:endBad:endBad], uint32(endBad), "ragged-table-rejected-file-ends-at-limit")
+	for L := endBad; L <= len(buf)+1; L++ {
+		if L < endBad+2 && L <= len(buf) {
+			// the line after the damaged one is cut right at its start: only complete lines count
+		}
+		check(c13Cut(buf, L), uint32(L), "ragged-table-rejected-at-cut")
+	}
+	vReach("end")
+}
